@@ -26,8 +26,17 @@ def letters(protein):
 
 # ----------------------------------------------------------------------------- recording
 
+try:
+    from lmhook import beat as _beat        # watchdog heartbeat of the embedding process (a hang becomes an observation)
+except Exception:                          # pragma: no cover - driver imported outside lmpyconform
+    def _beat(h, p):
+        pass
+_REC = []
+
+
 class Rec:
     def __init__(self, path):
+        _REC.append(self)
         self.f = open(path, "w")
         self.events = 0
         self.histories = 0
@@ -38,6 +47,7 @@ class Rec:
     def emit(self, e, sig=None):
         self.f.write('{"ev":"reset"}\n')
         self.histories += 1
+        _beat(self.histories, "")
         s = json.dumps(e)
         self.f.write(s + "\n")
         self.events += 1
@@ -78,6 +88,7 @@ def grid(x, g=4):
 
 def call(f):
     """('ok', value) | ('exc', class name) for ordinary exceptions | ('panic', class name) for BaseException-only"""
+    _beat(_REC[0].histories if _REC else 0, "")
     try:
         return ("ok", f())
     except Exception as e:          # ordinary Python exception
@@ -330,7 +341,7 @@ def c17_pvalues(rec, rng, thorough):
         for r in rows:
             att = {a + x for a in att for x in r[:4]}
         att = sorted(att)
-        qs = sorted(set([att[0] - 5, att[0], att[-1], att[-1] + 7] + [rng.choice(att) for _ in range(4)]))
+        qs = sorted(set([att[0] - 4000, att[0] - 90, att[0] - 5, att[0], att[-1], att[-1] + 7, att[-1] + 4000] + [rng.choice(att) for _ in range(4)]))
         e = dict(ev="py_pvalue", K=5, G=4, pssm=rows, bn=bn, bd=bd, den=den)
 
         def run():
@@ -686,9 +697,12 @@ def record_c18(rec, rng, thorough):
 # ----------------------------------------------------------------------------- entry point
 
 def main(prop, out, seed, thorough):
-    rng = random.Random(seed * 1000003 + (17 if prop == "C17" else 18))
+    rng = random.Random(seed * 1000003 + (17 if prop == "C17" else 11 if prop == "C11" else 18))
     rec = Rec(out)
-    if prop == "C17":
+    if prop == "C11":
+        # the p-value half of the bindings only (same events, same trace specification as C17)
+        c17_pvalues(rec, rng, thorough)
+    elif prop == "C17":
         record_c17(rec, rng, thorough)
     elif prop == "C18":
         record_c18(rec, rng, thorough)
